@@ -2,7 +2,7 @@
 from harness import tiger
 
 ID = "C19"
-MODULES = ["HeraProofs.Props.C19", "HeraProofs.Props.C19b"]
+MODULES = ["HeraProofs.Props.C19", "HeraProofs.Props.C19b", "HeraProofs.Props.C19c"]
 GENERATED_DEPS = ["Ops.lean", "Stdlib.lean"]
 EXPLANATION = ("Theorem C19_div_mod (all 2^32 operand pairs, via Int.fdiv / Int.fmod lemmas and nonlinear arithmetic): the div and "
                "mod helpers - modelled over the regenerated from_u16 / to_u16 - never raise, return 16-bit words, give 0 for a "
@@ -15,14 +15,17 @@ EXPLANATION = ("Theorem C19_div_mod (all 2^32 operand pairs, via Int.fdiv / Int.
                "result, return to PC_ret, FP / FP_alt exchanged back, SP, R2..R10 and memory kept), C19_malloc (whenever the "
                "block fits below the end of the heap: returns the first free address, advances the heap pointer by exactly n, "
                "changes no other cell, keeps SP and R2..R8 - so consecutive blocks are adjacent and disjoint; first call "
-               "included). Every other function, the stack convention and other layouts are decided by generated caller programs on the real interpreter, in both calling conventions, from "
+               "included). Stack convention (C19c): C19_size_stack, C19_ord_stack (argument slot FP+3 receives the result, provided the "
+               "string does not lie in the scratch slot FP+4; R1, SP, R2..R11 restored; only FP+3 and FP+4 change), C19_not_stack "
+               "(both paths; only the frame cells FP, FP+1, FP+3, FP+4 change; returns to the saved PC_ret). Every other function "
+               "and other layouts are decided by generated caller programs on the real interpreter, in both calling conventions, from "
                "random prior register contents: returns to its caller, SP and FP restored, R1..R10 preserved (stack convention), "
                "functional result (not, size, ord, chr, concat, substring incl. out-of-range bounds, sign of tstrcmp for equal / "
                "prefix / differing strings, malloc: first cell, successive blocks disjoint and inside the heap, out-of-memory "
                "stop), arguments unchanged, printint / print output.")
-ASSUMPTIONS = ["proved: div, mod, and size / ord / not / malloc of the register convention (as laid out when the library is the whole "
-               "program; failure paths of malloc - out of memory - are not in the theorem); the routines with loops (concat, "
-               "substring, tstrcmp, memcpy), chr, the stack convention and every other layout are decided by the caller-program "
+ASSUMPTIONS = ["proved: div, mod, size / ord / not / malloc of the register convention and size / ord / not of the stack convention (as laid "
+               "out when the library is the whole program; failure paths of malloc - out of memory - are not in the theorem); the "
+               "routines with loops (concat, substring, tstrcmp, memcpy), chr, stack-convention malloc and every other layout are decided by the caller-program "
                "oracle - proving them needs loop invariants over the library text, which was not reached",
                "getline / getchar / getchar_ord: only the calling contract is checked (their values are not specified by the property)",
                "the register convention is checked for: return to caller, SP, FP, result in R1 (which scratch registers it may "
